@@ -148,7 +148,7 @@ Theorem C18_any_containers_is_parse_inline :
     Forall (fun n => n = nm_table \/ n = nm_code \/ n = nm_fence \/ n = nm_hr) RB ->
     Forall (fun n => str_eqb n nm_paragraph = false) RC ->
     p_core cfg = [n_normalize; n_block; n_inline; n_text_join] ->
-  forall cs, weight cs < c_maxNesting (p_block cfg) ->
+  forall cs, Forall okc cs -> weight cs < c_maxNesting (p_block cfg) ->
   forall env,
     parse cfg rf cf lt (prefix cs ++ s ++ [10]) env
     = (do toks <- inline_parse (p_inline cfg) rf cf lt s env [];
@@ -157,8 +157,8 @@ Theorem C18_any_containers_is_parse_inline :
        = (do toks <- inline_parse (p_inline cfg) rf cf lt s env [];
           Ok ([set_children (i_inl s) (Some (join_children toks))], env)).
 Proof.
-  exact (fun cfg rf cf lt s Hs H13 H0 RA RB RC RD HC HA HB HCn Hc cs Hw env =>
-    conj (parse_nested cfg rf cf lt s Hs H13 H0 RA RB RC RD HC HA HB HCn Hc cs Hw env)
+  exact (fun cfg rf cf lt s Hs H13 H0 RA RB RC RD HC HA HB HCn Hc cs FO Hw env =>
+    conj (parse_nested cfg rf cf lt s Hs H13 H0 RA RB RC RD HC HA HB HCn Hc cs FO Hw env)
          (parse_inline_one_line cfg rf cf lt s H13 H0 Hc env)).
 Qed.
 Print Assumptions C18_any_containers_is_parse_inline.
